@@ -455,6 +455,27 @@ theorem C08_context_nearest {st : Core} (hr : Reachable st) (ty : Nat) :
     have : st.owners.length + 1 = (o + 1) + (st.owners.length - o) := by omega
     rw [this, lookup_fuel hr.treeWF ty (o + 1) o (Nat.lt_succ_self _), lookup_eq_chain]
 
+/-- **`take_context` takes the nearest provider and un-shadows the next one outward**: if the lookup
+under the current owner resolves to the entry of owner `a` (the nearest provider:
+`C08_context_nearest`), then after `take_context` every API of the family (`use_context`,
+`expect_context`, `with_context`, `update_context`, the next `take_context` — they share the lookup)
+resolves, under the same current owner, to what the lookup before the take finds on the same chain of
+owners with `a` left out: the owners nearer than `a` had no entry, so this is the next provider
+outward, or nothing; the entries of all other owners — other levels, other types — are untouched -/
+theorem C08_take_unshadows (st : Core) (ty : Nat) {o a : Nat} {e : CtxEntry}
+    (hc : currentOwner st = some o) (hl : lookupCur st ty = some (a, e)) :
+    lookupCur (takeCtx st ty) ty =
+      ((chain (st.owners.length + 1) st o).filter (· != a)).findSome? fun x =>
+        (ctxAt st x ty).map fun e => (x, e) := by
+  obtain ⟨hown, hcur⟩ := takeCtx_shape hl
+  have h1 : currentOwner (takeCtx st ty) = some o := by
+    rw [currentOwner_congr hcur (aliveB_takeCtx hl), hc]
+  unfold lookupCur
+  rw [h1]
+  simp only
+  rw [lookup_congr _ hown, hown, taken_length]
+  exact lookup_after_take _ st o ty a
+
 /-- a lookup resolves to an entry that its owner's last `cleanup` should have released -/
 def staleLookup (st : Core) (ty : Nat) : Bool :=
   match lookupCur st ty with
@@ -646,5 +667,24 @@ example : ((runOps {} [.body [.item 4], .act [] (.x .newOwner), .act [0] (.x (.s
 in 0 x J0; cleanup 0`): its entry satisfies the hypotheses of `C08_disposed_effect_never_runs` -/
 example : (runOps {} [.body [.read 0, .item 7], .act [] (.x .newOwner), .child 0, .act [0] (.x (.sig 1)),
       .act [1] (.x (.imm 0 true false)), .act [] (.cleanup 1), .set 0 2]).log.count (Ev.r 0) = 1 := by decide
+
+/-- the same type provided at three levels (`x o; child 0; child 1; in 0 x p0.1; in 1 x p0.2; in 2 x p0.3`):
+three takes from the innermost level return 3, 2, 1 — nearest first — and a lookup after each take sees
+the next provider outward; a fourth take finds nothing -/
+example : (runOps {} [.act [] (.x .newOwner), .child 0, .child 1, .act [0] (.x (.provide 0 1)),
+      .act [1] (.x (.provide 0 2)), .act [2] (.x (.provide 0 3)),
+      .act [2] (.x (.take 0)), .act [2] (.x (.use 0)), .act [2] (.x (.take 0)), .act [2] (.x (.use 0)),
+      .act [2] (.x (.take 0)), .act [2] (.x (.use 0)), .act [2] (.x (.take 0))]).log =
+    [Ev.t 0 (some 3), Ev.u 0 (some 2), Ev.t 0 (some 2), Ev.u 0 (some 1), Ev.t 0 (some 1), Ev.u 0 none,
+     Ev.t 0 none] := by decide
+/-- a take from the middle level leaves the inner provider alone; `update_context` changes the nearest
+provider in place -/
+example : (runOps {} [.act [] (.x .newOwner), .child 0, .child 1, .act [0] (.x (.provide 0 1)),
+      .act [1] (.x (.provide 0 2)), .act [2] (.x (.provide 0 3)),
+      .act [1] (.x (.take 0)), .act [2] (.x (.use 0)), .act [1] (.x (.use 0)),
+      .act [1] (.x (.update 0 5)), .act [0] (.x (.use 0)), .act [2] (.x (.update 0 1)),
+      .act [2] (.x (.use 0))]).log =
+    [Ev.t 0 (some 2), Ev.u 0 (some 3), Ev.u 0 (some 1), Ev.u 0 (some 6), Ev.u 0 (some 6), Ev.u 0 (some 4),
+     Ev.u 0 (some 4)] := by decide
 
 end Leptos.Owner
